@@ -194,5 +194,14 @@ CHECKS = {
              "computes from the solution row of that frame, for bodies, frames, meshed bodies, contacts, joints, force laws, forces/moments and four rod export levels; one real Moreau run.",
         note="Trusted: vtkXMLUnstructuredGridReader; points are float32 (2e-6 relative). Rod level 'volume' is checked for structure and finiteness only.",
         design="§3 C29"),
+    "C18": dict(
+        level="model_checking", engine="grid",
+        technique="exhaustive product enumeration of scene x solver x restitution x friction x step size executions on the real integrators; the discrete contact laws are recomputed at every stored step from the stored rows on a twin system",
+        text="11 scenes (drops, rest, slide, inclined and oscillating planes, sphere-sphere head-on/oblique, two-contact stack) x {Moreau, DualStormerVerlet (default, unaccelerated, LU), BackwardEuler, Rattle} "
+             "x e_N in {0,g,1} x mu in {0,g,1} x dt: P_N >= 0, open contact => P_N = 0, velocity-level complementarity with the restituted gap rate at each scheme's own evaluation point, "
+             "position-level non-penetration and complementarity, Coulomb disk, maximal dissipation when sliding, non-increasing kinetic energy for force-free frictionless impacts.",
+        note="Trusted: evaluation points read from the solver code (Moreau explicit midpoint, DSV implicit midpoint, Rattle/BackwardEuler end point); RATTLE and BackwardEuler judged as position-level "
+             "schemes; steps whose active-set decision lies in the 1e-7 tolerance band are excluded and counted; aborted executions are counted.",
+        design="§3 C18"),
 }
 NOT_APPLICABLE = {}
